@@ -603,9 +603,12 @@ def check_c03(model, rep, tier):
     # "a manifest built through the library's add operations is read back as ... every RPM under its source package with its path,
     # signing key and category; every module with ... ; every extra file with size and checksums": what add() files is part of it
     from .builders import r_keys
-    from .regexes import r_nvra_glue
+    from .regexes import r_nvra_glue, r_nvra_parse
     r_keys(model, rep)
     r_nvra_glue(model, rep)
+    # the key an RPM is filed under is what parse_nvra reads out of the caller's string: the proof that the pattern's first
+    # parse yields the intended name/epoch/version/release/arch for every legal NEVRA is part of "filed where the arguments say"
+    r_nvra_parse(model, rep, tier)
     r_reader_not_stricter(model, rep)
     # an output method that rewrites the stored entries (dump_for_tree stripping the base path *in* the manifest's own dicts)
     # changes what the next dump writes
@@ -1528,6 +1531,9 @@ def check_c05(model, rep, tier):
     r_upgrade_reloadable(model, rep)
     from .sources import r_src_route
     from .regexes import r_legacy_compose, r_suffix_tables, r_cid_decode
+    # a converted tree is written under the section names the writer derives from the converted type; the legacy readers set that
+    # type late (deserialize_0_0 forces 'addon' at the end), so the name must be derived from the fields at the time of writing
+    r_section_dep(model, rep)
     # documents older than 0.3 carry date, type and respin only inside the compose id: the legacy reader is as faithful as the decoder
     r_cid_decode(model, rep, r_suffix_tables(model, rep), tier)
     r_src_route(model, rep)
